@@ -224,7 +224,7 @@ func Run(seed uint64, index int64, o hx.Opts) *hx.Result {
 		if z := hx.G(24); z < 3 {
 			ttl[z] = 0
 		}
-		mix := hx.G(7)
+		mix := [...]int{0, 1, 2, 3, 4, 5, 6, 6, 3}[hx.G(9)]
 		var prelude []In
 		{
 			// drawn always (fixed width), used by mix 6: every name registered, then the clock jumps past every TTL
